@@ -50,6 +50,7 @@ fn main() {
         ("replay", "ods_text") => props::ods_text::replay(&args),
         ("replay", "stream") => props::stream::replay(&args),
         ("drive", "stream") => props::stream::drive(&args),
+        ("drive", "families") => props::families::drive(&args),
         ("replay", "bin_text") => props::bin_text::replay(&args),
         ("drive", "bin_text") => props::bin_text::drive(&args),
         ("replay", "xls_merge") => props::xls_merge::replay(&args),
